@@ -512,14 +512,24 @@ func init() {
 			}
 		}
 		// combs: many nested levels that must each be split (a leaf or two and one deeper subtree per level)
-		for _, depth := range []int{10, 63, 64, 65, 66, 70, 130} {
-			if depth > 70 && !g.thorough() {
+		for _, depth := range []int{10, 63, 64, 65, 66, 70, 130, 257, 255, 256, 300} {
+			if depth > 70 && depth != 257 && !g.thorough() {
 				continue
 			}
-			for variant := 0; variant < 2; variant++ {
+			for variant := 0; variant < 3; variant++ {
 				keys := [][]byte{}
 				for d := 0; d < depth; d++ {
 					pfx := bytes.Repeat([]byte{'m'}, d)
+					if variant == 2 {
+						// a chain of keys each a prefix of the next, with a few siblings near the top
+						if d > 0 {
+							keys = append(keys, pfx)
+						}
+						if d < 3 {
+							keys = append(keys, append(append([]byte(nil), pfx...), 'z'))
+						}
+						continue
+					}
 					keys = append(keys, append(append([]byte(nil), pfx...), 'a'))
 					if variant == 1 || d%3 == 0 {
 						keys = append(keys, append(append([]byte(nil), pfx...), 'b', byte('0'+d%10)))
@@ -534,6 +544,13 @@ func init() {
 				for _, ms := range []int{1, 2, 3} {
 					g.emit("shard %s %d", showBytesList(keys), ms)
 				}
+			}
+		}
+		// neighbours sharing 2^16 bytes and more (a prefix length is a number of bytes of any size): evaluated on the
+		// real code by the harness (the list-based model needs minutes for keys of this length)
+		for _, pl := range []int{65535, 65536, 65537, g.n(70000, 1<<20+3)} {
+			for _, ms := range []int{1, 2, 4} {
+				g.emit("shardprobe %d %d %d %d", pl, 5+g.intn(20), ms, g.intn(1000))
 			}
 		}
 		// maximal fan-out: a key equal to the common prefix followed by (nearly) every next byte
